@@ -325,8 +325,8 @@ RefStep(X, r, o) ==
              L  == FoldS(Lv, [lockq |-> X.lockq, lk |-> {}, pending |-> X.pending], DOMAIN X.lockq)
              cl == X.clients \ {c}
              others == {s \in X.subs : s.id[1] # c}
-             e1 == RefPut([E0 EXCEPT !.subs = others], ClientsKey, PlainE(NumTok(Cardinality(cl))))
-             e2 == RefDrop(e1, RefMatches(e1.ref, <<SYS, CLIENTS, c, MULTI>>))
+             e1 == RefPut(E0, ClientsKey, PlainE(NumTok(Cardinality(cl))))       \* c's subscriptions still exist
+             e2 == RefDrop([e1 EXCEPT !.subs = others], RefMatches(e1.ref, <<SYS, CLIENTS, c, MULTI>>))
              e3 == RefBury(e2, gg, c)
              e4 == RefWill(e3, lw, c)
          IN [R |-> [X EXCEPT !.clients = cl, !.ref = e4.ref,
